@@ -463,7 +463,7 @@ func (s *Server) handleConnReceiver(module *Module, crd *rsyncwire.CountingReade
 	if err != nil {
 		return fmt.Errorf("OpenRoot(dest=%s): %v", rt.Dest, err)
 	}
-	defer rt.DestRoot.Close()
+	defer func() { rt.CloseDestRoot() }()
 
 	if !implicitModule {
 		if len(paths) > 1 {
@@ -493,7 +493,9 @@ func (s *Server) handleConnReceiver(module *Module, crd *rsyncwire.CountingReade
 				// https://go.googlesource.com/go/+/ed7f804
 				rt.Dest = filepath.Join(rt.Dest, name)
 			}
+			parentRoot := rt.DestRoot
 			rt.DestRoot = subRoot
+			parentRoot.Close()
 			if opts.Verbose() {
 				s.logger.Printf("opened subdirectory %q", rt.Dest)
 			}
